@@ -7,8 +7,10 @@ import (
 	"path/filepath"
 	"strings"
 	"sync"
+	"sync/atomic"
 
 	"github.com/maruel/panicparse/v2/stack"
+	"github.com/maruel/panicparse/v2/verifhook"
 
 	"verifharness/core"
 	"verifharness/mon"
@@ -20,7 +22,7 @@ import (
 
 func c14Sources(rr *core.Rand) (mainSrc, utilSrc []byte) {
 	var b bytes.Buffer
-	b.WriteString("package main\n\nfunc main() { spawn() }\n\nfunc work(id int, name string, p *int) {\n\tleaf(id, []byte(name))\n}\n\nfunc leaf(id int, b []byte) {\n\tpanic(\"boom\")\n}\n\nfunc spawn() {\n\tgo work(1, \"ab\", nil)\n}\n")
+	b.WriteString("package main\n\nfunc main() { spawn() }\n\nfunc work(id int, name string, p *int) {\n\tleaf(id, []byte(name))\n}\n\nfunc leaf(id int, b []byte) {\n\tpanic(\"boom\")\n}\n\nfunc spawn() {\n\tgo work(1, \"ab\", nil)\n}\n\nfunc big(a, b, c, d, e, f, g, h, i, j, k int) {\n\tleaf(a, nil)\n}\n")
 	n := 100 + rr.Intn(2500)
 	for i := 0; i < n; i++ {
 		fmt.Fprintf(&b, "\nfunc filler%d(a, b int, s string) (int, string) {\n\tif a > b {\n\t\treturn a - b, s + \"x\"\n\t}\n\treturn b - a, s\n}\n", i)
@@ -48,6 +50,10 @@ func c14SrcDump(rr *core.Rand, dir string) []byte {
 		fmt.Fprintf(&b, "main.work(0x%x, {0x4b6f2a, 0x2}, 0xc00001%04x)\n\t%s/main.go:6 +0x45\n", id, rr.Intn(4)*8, dir)
 		if rr.Bool() {
 			fmt.Fprintf(&b, "main.helper(0x3ff8000000000000, 0x1)\n\t%s/util.go:4 +0x33\n", dir)
+		}
+		if rr.Bool() {
+			// more words than the runtime prints: the argument list ends with the elision marker
+			fmt.Fprintf(&b, "main.big(0x1, 0x2, 0x3, 0x4, 0x5, 0x6, 0x7, 0x8, 0x9, 0xa, ...)\n\t%s/main.go:18 +0x51\n", dir)
 		}
 		fmt.Fprintf(&b, "created by main.spawn\n\t%s/main.go:14 +0x2b\n\n", dir)
 	}
@@ -118,6 +124,37 @@ func c14SourcePhase(r *core.Run) {
 						augmented++
 					}
 				}
+			}
+			// the snapshot of the scan run alone is then shared: W goroutines print it the way pp does (goroutine by
+			// goroutine and aggregated) at the same time; each output must be the one printed alone
+			var t0, t1 bytes.Buffer
+			_ = verifhook.WriteGoroutines(&t0, false, want, 2, nil, nil)
+			_ = verifhook.WriteBuckets(&t1, false, want.Aggregate(stack.AnyPointer), 2, nil, nil)
+			var tw sync.WaitGroup
+			var tbad atomic.Int32
+			for k := 0; k < 6; k++ {
+				tw.Add(1)
+				go func(k int) {
+					defer tw.Done()
+					var b bytes.Buffer
+					if k%2 == 0 {
+						_ = verifhook.WriteGoroutines(&b, false, want, 2, nil, nil)
+						if !bytes.Equal(b.Bytes(), t0.Bytes()) {
+							tbad.Add(1)
+						}
+					} else {
+						_ = verifhook.WriteBuckets(&b, false, want.Aggregate(stack.AnyPointer), 2, nil, nil)
+						if !bytes.Equal(b.Bytes(), t1.Bytes()) {
+							tbad.Add(1)
+						}
+					}
+				}(k)
+			}
+			tw.Wait()
+			r.Eval(6)
+			if tbad.Load() != 0 {
+				r.Violation("concurrent-console-rendering", fmt.Sprintf("round %d: concurrent console renderings of one shared snapshot (typed arguments present) differ from the rendering done alone", round), "conc", map[string]any{"round": round, "input": string(in)})
+				return
 			}
 			for k := i; k < w; k += len(inputs) {
 				compared++
